@@ -565,6 +565,50 @@ func run(in input) vh.Result {
 					observeScope(q.S)
 				}
 			}
+		case "stress":
+			// free-running writers, one goroutine per scope, no parking: the write worker
+			// batches by its own timer.  Scopes are independent, so the outcome must be
+			// the one of running each scope's requests one after the other.
+			var per [nScopes][]reqIn
+			for _, q := range o.Reqs {
+				if q.S >= 0 && q.S < nScopes {
+					per[q.S] = append(per[q.S], q)
+				}
+			}
+			var codes [nScopes][]uint64
+			var wg sync.WaitGroup
+			for sc := 0; sc < nScopes; sc++ {
+				codes[sc] = make([]uint64, len(per[sc]))
+				wg.Add(1)
+				go func(sc int) {
+					defer wg.Done()
+					st := s.db.For(scopeOf(sc))
+					for i, q := range per[sc] {
+						codes[sc][i] = classify(doReq(ctx, st, q))
+					}
+				}(sc)
+			}
+			wg.Wait()
+			for sc := 0; sc < nScopes; sc++ {
+				for i, q := range per[sc] {
+					if codes[sc][i] == 0 {
+						if err := doReq(ctx, s.mem[sc], q); err != nil {
+							panic("memory store refused a request: " + err.Error())
+						}
+					}
+					cls[reqClass(q, codes[sc][i])] = true
+					writes++
+					step(vh.App("OWrite", vh.N(0), vh.List([]string{coqReq(q)})), vh.App("RWrite", vh.NList([]uint64{codes[sc][i]})))
+				}
+			}
+			cls["stress"] = true
+			for _, f := range o.F {
+				cls[f] = true
+			}
+			obsJSON = append(obsJSON, map[string]any{"stress": codes})
+			for sc := 0; sc < nScopes; sc++ {
+				observeScope(sc)
+			}
 		case "reopen":
 			s.closeDB()
 			s.open()
